@@ -14,6 +14,8 @@ import StyluaModel.Lemmas.Paren
 import StyluaModel.Lemmas.StrLit
 import StyluaModel.Lemmas.ParserMono
 import StyluaModel.Lemmas.TypeParen
+import StyluaModel.Model.Block
+import StyluaModel.Generated.Decisions
 
 namespace StyluaModel.C01
 open StyluaModel StyluaModel.ParenRule StyluaModel.Prec StyluaModel.ParenLemmas StyluaModel.Generated Expr
@@ -101,5 +103,27 @@ example : Parser.parse 20 (Parser.print (bin .plus (atom 0) (bin .star (atom 1) 
 /-- an unfaithful tree is *not* read back as itself: `(a + b) * c` printed without its parentheses -/
 example : Parser.parse 20 (Parser.print (bin .star (bin .plus (atom 0) (atom 1)) (atom 2))) =
     some (bin .plus (atom 0) (bin .star (atom 1) (atom 2))) := by decide
+
+/-! ## the semicolon that keeps `a = b ; (f)()` two statements -/
+
+/-- name of a statement kind in the source (`full_moon::ast::Stmt`) -/
+def kindNames : Block.Kind → List String
+  | .assignment => ["Assignment"]
+  | .localAssignment => ["LocalAssignment"]
+  | .call => ["FunctionCall"]
+  | .repeatB => ["Repeat"]
+  | .other => []
+
+/-- **a statement that can end in an expression keeps (or gets) a semicolon in front of a statement
+that begins with `(`**, and the statement kinds for which the model says so are the ones
+`check_stmt_requires_semicolon` lists in the source, as the translator reads them on every run
+(removing `Stmt::Repeat(_)` from that match breaks this obligation) -/
+theorem C01_semicolon_kinds (s n : Block.Stmt) :
+    (Block.requiresSemi s (some n) = (n.startsParen && (kindNames s.kind).any Generated.semiStmtKinds.contains)) ∧
+    Block.requiresSemi s none = false ∧
+    Generated.semiNextKinds = ["FunctionCall", "Assignment", "CompoundAssignment"] := by
+  refine ⟨?_, ?_, by decide⟩
+  · cases hk : s.kind <;> simp [Block.requiresSemi, hk, kindNames, Generated.semiStmtKinds]
+  · cases hk : s.kind <;> simp [Block.requiresSemi, hk]
 
 end StyluaModel.C01
